@@ -450,7 +450,13 @@ func TestVerifC20Regressions(t *testing.T) {
 func TestVerifC17Fingerprint(t *testing.T) {
 	vs.Run(t, "C17", func(c *vs.Case) error {
 		var err error
-		switch c.Int(8) {
+		switch c.Int(10) {
+		case 8:
+			c.Class("carrier:C08")
+			err = vw.PropC08(c, compositeFactory, vw.RolloutOpts{MaxChildren: 5, Scale: true, TwoKinds: true})
+		case 9:
+			c.Class("carrier:C09")
+			err = vw.PropC09(c, compositeFactory, vw.RolloutOpts{MaxChildren: 3, Scale: true})
 		case 0:
 			c.Class("carrier:C01")
 			err = vw.PropC01(c, compositeFactory, "composite")
